@@ -131,6 +131,15 @@ Proof. reflexivity. Qed.
 Lemma clamp_above lb (y : Qc) : qabove lb (qclamp lb y).
 Proof. destruct lb as [b|]; cbn; [apply qmax_l | exact I]. Qed.
 
+(* Adagrad's guard `self._gnormsum > 0` (/repo 2496788, finding C13-G1) *)
+Definition qposb (x : Qc) : bool := negb (qleb x 0).
+Lemma qposb_false (x : Qc) : qposb x = false -> x <= 0.
+Proof. unfold qposb, qleb. intros H. apply negb_false_iff in H. now apply Qle_bool_iff in H. Qed.
+Lemma qposb_nonpos (x : Qc) : x <= 0 -> qposb x = false.
+Proof. unfold qposb, qleb. intros H. apply negb_false_iff. now apply Qle_bool_iff. Qed.
+Lemma qposb_zero : qposb 0 = false.
+Proof. reflexivity. Qed.
+
 (* ============================================================================================== *)
 (* the three optimizers over Qc, sq = the square-root oracle                                        *)
 (* ============================================================================================== *)
@@ -140,7 +149,7 @@ Hypothesis sq_nonneg : forall x, 0 <= sq x.
 
 Definition qsgd_step := sgd_step Qc qmax Qcminus Qcmult Qcpower.
 Definition qadam_step := adam_step Qc qmax Qcplus Qcminus Qcmult Qcdiv sq Qcpower 0 1.
-Definition qadagrad_step := adagrad_step Qc qmax Qcplus Qcminus Qcmult Qcdiv sq 0 1.
+Definition qadagrad_step := adagrad_step Qc qmax Qcplus Qcminus Qcmult Qcdiv sq 0 1 qposb.
 
 (* ---------------- SGD: x' = max(lb, x - decay^nfails * rate * g) ---------------- *)
 Definition sgd_stepsize (rate decay : Qc) (nfails : nat) : Qc := decay ^ nfails * rate.
@@ -170,16 +179,19 @@ Proof.
     + intros Hx Hg. apply clamp_stay; [assumption|]. rewrite Hg. ring.
 Qed.
 
-(* ---------------- Adagrad: gsum' = gsum + sum g^2, step = 1 / sqrt(gsum'), x' = max(lb, x - step * g) ---------------- *)
+(* ---------------- Adagrad: gsum' = gsum + sum g^2, step = 1 / sqrt(gsum') if gsum' > 0 else 0, x' = max(lb, x - step * g) ------- *)
 Definition sumsq (gs : list Qc) : Qc := fold_right Qcplus 0 (map (fun g => g * g) gs).
 Lemma sumsq_nonneg gs : 0 <= sumsq gs.
 Proof.
   unfold sumsq. induction gs as [|g gs IH]; cbn [map fold_right]; [apply Qcle_refl|].
   apply qc_add_nonneg; [apply qc_sq_nonneg | exact IH].
 Qed.
+Definition adagrad_stepsize (gsum' : Qc) : Qc := if qposb gsum' then 1 / sq gsum' else 0.
+Lemma adagrad_stepsize_nonneg g : 0 <= adagrad_stepsize g.
+Proof. unfold adagrad_stepsize. destruct (qposb g); [apply qc_inv_nonneg, sq_nonneg | apply Qcle_refl]. Qed.
 
 Theorem adagrad_step_arith lb gsum xs gs : length gs = length xs ->
-  let gsum' := snd (qadagrad_step lb gsum xs gs) in let step := 1 / sq gsum' in
+  let gsum' := snd (qadagrad_step lb gsum xs gs) in let step := adagrad_stepsize gsum' in
   gsum' = gsum + sumsq gs /\ gsum <= gsum' /\ (0 <= gsum -> 0 <= gsum') /\ 0 <= step /\
   length (fst (qadagrad_step lb gsum xs gs)) = length xs /\
   forall k, (k < length xs)%nat ->
@@ -188,8 +200,9 @@ Theorem adagrad_step_arith lb gsum xs gs : length gs = length xs ->
     (qabove lb x -> 0 <= g -> x' <= x) /\ (g <= 0 -> x <= x') /\ (qabove lb x -> g = 0 -> x' = x).
 Proof.
   intros Hl. unfold qadagrad_step, adagrad_step, project. cbn [fst snd]. fold (sumsq gs).
+  fold (adagrad_stepsize (gsum + sumsq gs)).
   pose proof (sumsq_nonneg gs) as Hq.
-  assert (Hs : 0 <= 1 / sq (gsum + sumsq gs)) by (apply qc_inv_nonneg, sq_nonneg).
+  pose proof (adagrad_stepsize_nonneg (gsum + sumsq gs)) as Hs.
   split; [reflexivity|]. split; [now apply qc_le_add_nonneg|]. split; [intros; now apply qc_add_nonneg|].
   split; [exact Hs|]. split; [rewrite map_length, length_zipw; lia|].
   intros k Hk. cbn zeta.
@@ -199,6 +212,34 @@ Proof.
   - intros Hx Hg. apply clamp_move_down; [assumption | now apply qc_mul_nonneg].
   - intros Hg. apply clamp_move_up. now apply qc_mul_nonneg_nonpos.
   - intros Hx Hg. apply clamp_stay; [assumption|]. rewrite Hg. ring.
+Qed.
+(* the zero accumulator (finding C13-G1, repaired): while the accumulated squared gradient norm is not positive the step size is 0
+   WHATEVER the square root answers (it is not asked: no 1 / sqrt(0) = inf, no inf * 0 = nan); every entry becomes max(lb, x) —
+   the bound holds, and a feasible model stays exactly where it is *)
+Theorem adagrad_zero_accumulator lb gsum xs gs : length gs = length xs -> gsum + sumsq gs <= 0 ->
+  adagrad_stepsize (gsum + sumsq gs) = 0 /\
+  snd (qadagrad_step lb gsum xs gs) = gsum + sumsq gs /\
+  fst (qadagrad_step lb gsum xs gs) = map (qclamp lb) xs /\
+  Forall (qabove lb) (fst (qadagrad_step lb gsum xs gs)) /\
+  (Forall (qabove lb) xs -> fst (qadagrad_step lb gsum xs gs) = xs).
+Proof.
+  intros Hl Hz. unfold qadagrad_step, adagrad_step, project, adagrad_stepsize. cbn [fst snd]. fold (sumsq gs).
+  rewrite (qposb_nonpos _ Hz).
+  assert (E : zipw (fun x g : Qc => x - 0 * g) xs gs = xs).
+  { clear Hz. revert gs Hl. induction xs as [|x xs IH]; intros [|g gs] Hl; cbn in *; try reflexivity; try discriminate.
+    f_equal; [ring | apply IH; now injection Hl]. }
+  rewrite E. split; [reflexivity|]. split; [reflexivity|]. split; [reflexivity|]. split.
+  - apply Forall_map. apply Forall_forall. intros x _. apply clamp_above.
+  - intros Hf. clear Hl Hz E. induction Hf as [|x l Hx Hf IH']; cbn [map]; [reflexivity|]. f_equal; [now apply clamp_feasible_id | exact IH'].
+Qed.
+(* the first step of a solve / after a failed epoch with an exactly zero gradient: accumulator 0 + 0 *)
+Corollary adagrad_zero_gradient_after_reset lb g0 xs gs : length gs = length xs -> sumsq gs = 0 -> Forall (qabove lb) xs ->
+  qadagrad_step lb (adagrad_reset Qc 0 g0) xs gs = (xs, 0).
+Proof.
+  intros Hl Hs Hf. unfold adagrad_reset.
+  destruct (adagrad_zero_accumulator lb 0 xs gs Hl) as (_ & H2 & _ & _ & H5).
+  { rewrite Hs. apply Qcle_refl. }
+  rewrite (surjective_pairing (qadagrad_step lb 0 xs gs)), H2, (H5 Hf), Hs. f_equal.
 Qed.
 (* set_failed_epoch / reset_state: the accumulator restarts at 0, so the next step size is 1 / sqrt(sum g^2) of that step alone *)
 Lemma adagrad_after_reset lb g0 xs gs :
@@ -312,10 +353,12 @@ Definition qsgd_check (rate decay : Qc) (nf : nat) (lb : option Qc) (xs gs xs'_o
   match lb with None => true | Some b => forallb (qleb b) xs'_obs end.
 
 (* Adagrad: ONE square root per step *)
-Definition qadagrad_check (lb : option Qc) (gsum : Qc) (xs gs : list Qc) (s : Qc)
+(* ... and NONE while the accumulator is not positive (nsq = the number of np.sqrt calls observed inside the step; s is ignored then) *)
+Definition qadagrad_check (lb : option Qc) (gsum : Qc) (xs gs : list Qc) (nsq : nat) (s : Qc)
            (xs'_obs : list Qc) (gsum'_obs step_obs : Qc) : bool :=
   let r := qadagrad_step (fun _ => s) lb gsum xs gs in
-  sqrt_ok s (snd r) && qopt_close xs'_obs (fst r) && qclose tol9 gsum'_obs (snd r) && qclose tol9 step_obs (1 / s) &&
+  (if qposb (snd r) then Nat.eqb nsq 1 && sqrt_ok s (snd r) else Nat.eqb nsq 0) &&
+  qopt_close xs'_obs (fst r) && qclose tol9 gsum'_obs (snd r) && qclose tol9 step_obs (adagrad_stepsize (fun _ => s) (snd r)) &&
   match lb with None => true | Some b => forallb (qleb b) xs'_obs end.
 
 (* Adam: one square root per entry, looked up by its exact argument *)
@@ -340,6 +383,11 @@ Proof. vm_compute. reflexivity. Qed.
 Example adagrad_step_example :   (* gsum 0 -> 9 + 16 = 25, sqrt 5 (oracle), step 1/5: x - g/5 *)
   qadagrad_step (fun _ => qz 5) None 0 [qz 1; qz 2] [qz 3; qz (-4)] = ([Q2Qc (2 # 5); Q2Qc (14 # 5)], qz 25).
 Proof. vm_compute. reflexivity. Qed.
+Example adagrad_zero_example :   (* accumulator 0, gradient 0: stays, whatever the oracle says; an infeasible entry is projected *)
+  qadagrad_step (fun _ => qz 7) (Some (qz 2)) 0 [qz 1; qz 3] [0; 0] = ([qz 2; qz 3], 0) /\
+  qadagrad_check (Some (qz 2)) 0 [qz 1; qz 3] [0; 0] 0 0 [qz 2; qz 3] 0 0 = true /\
+  qadagrad_check (Some (qz 2)) 0 [qz 1; qz 3] [0; 0] 1 0 [qz 2; qz 3] 0 0 = false.
+Proof. vm_compute. repeat split; reflexivity. Qed.
 Definition qlist_eqb := list_eqb Qc_eq_bool.
 Example adam_step_example :   (* first step: b1 = b2 = 1/2, ei = 1: mhat = g, vhat = g^2 = [9; 16]; sqrt = [3; 4]; eps = 1; rate 1 *)
   let r := qadam_step (sq_lookup [(qz 9, qz 3); (qz 16, qz 4)]) 1 1 (Q2Qc (1 # 2)) (Q2Qc (1 # 2)) 1 1 0 None
